@@ -263,3 +263,34 @@ def coq_term_mw(case):
     if cls == 'DW': return 'dw_trace_z repaired %s [%s]' % (n, '; '.join(qw(coq_wop, o) for o in ops))
     if cls == 'UW': return 'uw_trace_z repaired true %s [%s]' % (n, '; '.join(qw(coq_wop, o) for o in ops))
     return None
+
+
+# ---- C16: forced insertions on the multigraph / weighted classes, then removeDuplicateEdges, then ordinary use ----
+def forced_then_dedup(rng, cls, sizes=(1, 2, 3, 3, 4, 5)):
+    und = cls in ('UM', 'UW'); multi = cls in ('DM', 'UM')
+    n = rng.choice(sizes)
+    key = (lambda i, j: (min(i, j), max(i, j))) if und else (lambda i, j: (i, j))
+    val = {}
+    ops = []
+    for _ in range(rng.randint(1, 12)):
+        if val and rng.random() < 0.5:
+            i, j = rng.choice(sorted(val))
+            if rng.random() < 0.5: i, j = j, i
+        else:
+            i = rng.randrange(n); j = rng.choice([i, rng.randrange(n), rng.randrange(n)])
+        k = key(i, j)
+        if k in val:
+            v = val[k] if rng.random() < 0.93 else val[k] + 1          # all copies carry the same value (rarely not: the oracle must then abstain)
+            f = 1 if rng.random() < 0.8 else 0
+        else:
+            v = rng.randint(1, 3) if multi else rng.choice([-5, -1, 0, 2, 4, 7]); f = rng.randint(0, 1)
+        if multi:
+            if f == 0 and k in val: continue                           # an unforced addMultiedge on a present pair accumulates: not a duplicate
+            ops.append('MA %d %d %d %d' % (i, j, v, f)) if (v != 1 or rng.random() < 0.5) else ops.append('A %d %d %d' % (i, j, f))
+        else:
+            ops.append('WA %d %d %d %d' % (i, j, v, f))
+        val.setdefault(k, v)
+    ops.append('DD')
+    tail = (multi_history if multi else weighted_history)(rng, cls, maxops=8, sizes=(n,)).split(':', 1)[1].strip()
+    if tail: ops.append(tail)
+    return '%s %s %d : %s' % (cls, 'mult' if multi else 'dbl', n, ' ; '.join(ops))
